@@ -71,10 +71,16 @@ type client struct {
 }
 
 func (b *broker) connect(id string, keepAlive int, will *mq.ConnectOpts) (*client, error) {
+	c, _, err := b.connectSession(id, keepAlive, will, true)
+	return c, err
+}
+
+// connectSession also chooses the CleanSession flag and reports the session-present flag of the CONNACK
+func (b *broker) connectSession(id string, keepAlive int, will *mq.ConnectOpts, clean bool) (*client, bool, error) {
 	cli, srv := net.Pipe()
 	b.serving.Add(1)
 	go func() { defer b.serving.Done(); b.svr.VerifServe(srv) }()
-	o := mq.ConnectOpts{ClientID: id, Clean: true, KeepAlive: keepAlive, Flags: -1}
+	o := mq.ConnectOpts{ClientID: id, Clean: clean, KeepAlive: keepAlive, Flags: -1}
 	if will != nil {
 		o.Will, o.WillTopic, o.WillMsg, o.WillQoS = true, will.WillTopic, will.WillMsg, will.WillQoS
 	}
@@ -82,9 +88,9 @@ func (b *broker) connect(id string, keepAlive int, will *mq.ConnectOpts) (*clien
 	go cli.Write(mq.Connect(o))
 	p, err := c.read(5 * time.Second)
 	if err != nil || mq.Type(p) != mq.CONNACK || p[3] != 0 {
-		return nil, fmt.Errorf("connect %s: %v %x", id, err, p)
+		return nil, false, fmt.Errorf("connect %s: %v %x", id, err, p)
 	}
-	return c, nil
+	return c, p[2]&1 != 0, nil
 }
 
 func (c *client) write(b []byte) error {
@@ -487,6 +493,31 @@ func teardown(r *hx.Rng, f *failures, stats map[string]int, cond int) {
 	w.c.Close()
 	q.c.Close()
 	b.expectStops(f, 2, 10*time.Second, "teardown of the bystanders")
+	// a clean session is discarded at the end of its connection whatever its will is like: also a will the topic
+	// store refuses to route (a level starting with '$'), also when the connection ends without DISCONNECT
+	for i, wt := range []string{"$gone/x", "gone/$x", "gone/x"} {
+		id := fmt.Sprintf("cleanwill%d", i)
+		c, _, err := b.connectSession(id, 60, &mq.ConnectOpts{WillTopic: wt, WillMsg: []byte("x")}, true)
+		if err != nil {
+			f.add("harness: %v", err)
+			continue
+		}
+		c.write(mq.Subscribe(1, []string{"cw/#"}, []int{1}))
+		c.read(5 * time.Second)
+		c.c.Close()
+		b.expectStops(f, 1, 10*time.Second, "teardown of a clean session with will topic "+wt)
+		c2, sp, err := b.connectSession(id, 60, nil, false)
+		if err != nil {
+			f.add("harness: %v", err)
+			continue
+		}
+		if sp {
+			f.add("C16: the clean session of a connection with will topic %q that ended abruptly was not discarded: a later CONNECT with CleanSession=0 is answered with session-present=1", wt)
+		}
+		c2.write(mq.Disconnect())
+		c2.c.Close()
+		b.expectStops(f, 1, 10*time.Second, "teardown after the probe")
+	}
 	b.shutdown(f, "teardown with "+what)
 	stats["teardown_"+fmt.Sprint(cond)]++
 }
@@ -973,6 +1004,52 @@ func keepalive(f *failures, stats map[string]int) {
 			c.c.Close()
 		}(i, ping)
 	}
+	// silent, but receiving: a subscriber that sends nothing while the broker keeps forwarding publishes to it is as
+	// silent as any other (what the broker writes is not activity of the client)
+	wg.Add(1)
+	go func() {
+		defer wg.Done()
+		c, err := b.connect("silentsub", 1, &mq.ConnectOpts{WillTopic: "will/silent-receiving", WillMsg: []byte("gone")})
+		if err != nil {
+			f.add("harness: %v", err)
+			return
+		}
+		c.write(mq.Subscribe(1, []string{"ka/data"}, []int{0}))
+		if _, err := c.read(2 * time.Second); err != nil {
+			f.add("harness: no SUBACK for the silent subscriber: %v", err)
+			return
+		}
+		t0 := time.Now()
+		stop := make(chan struct{})
+		go func() {
+			for {
+				select {
+				case <-stop:
+					return
+				case <-time.After(250 * time.Millisecond):
+					m := message.NewPublishMessage()
+					m.SetTopic([]byte("ka/data"))
+					m.SetPayload([]byte("tick"))
+					b.svr.Publish(m)
+				}
+			}
+		}()
+		for {
+			_, err := c.read(6 * time.Second)
+			if err != nil {
+				if strings.Contains(err.Error(), "timeout") {
+					f.add("C19: a subscriber with keep-alive 1s that sent nothing for %v, while the broker kept forwarding publishes to it, was not disconnected", time.Since(t0))
+				}
+				break
+			}
+			if time.Since(t0) > 4*time.Second {
+				f.add("C19: a subscriber with keep-alive 1s that sent nothing for %v, while the broker kept forwarding publishes to it, was not disconnected", time.Since(t0))
+				break
+			}
+		}
+		close(stop)
+		c.c.Close()
+	}()
 	// active at uneven intervals, every one shorter than K: a short gap followed by a long one (a deadline that is
 	// not re-armed at every read is still running from the packet before)
 	rng := hx.NewRng(hx.EnvSeed() + 19)
@@ -1017,7 +1094,7 @@ func keepalive(f *failures, stats map[string]int) {
 			got[pub.Topic] = true
 		}
 	}
-	for _, t := range []string{"will/silent0", "will/silent1"} {
+	for _, t := range []string{"will/silent0", "will/silent1", "will/silent-receiving"} {
 		if !got[t] {
 			f.add("C19: the will of a client dropped for inactivity (%s) was not published", t)
 		}
